@@ -71,6 +71,31 @@ type c01Case struct {
 	Spelled bool   `json:"request_line_percent_escaped,omitempty"`
 	Req     string `json:"request_method,omitempty"`
 	Path    string `json:"path"`
+	// History: requests matched on the same tree before Path (recorded only when a fresh tree alone does
+	// not show the mismatch)
+	History []string `json:"earlier_requests_on_the_same_tree,omitempty"`
+	// Served: flame level, the requests served on the same instance before this one (same rule)
+	Served []c01Req `json:"earlier_requests_on_the_same_instance,omitempty"`
+}
+
+type c01Req struct {
+	Method  string `json:"method"`
+	Path    string `json:"path"`
+	Spelled bool   `json:"percent_escaped,omitempty"`
+}
+
+func c01ServeReq(f *flamego.Flame, q c01Req) (code int, pan interface{}) {
+	req := newReq(q.Method, q.Path)
+	if q.Spelled {
+		var ok bool
+		if req, ok = newReqSpelled(q.Method, q.Path); !ok {
+			return 0, nil
+		}
+	}
+	spy := &c01Spy{hdr: http.Header{}}
+	defer func() { pan = recover() }()
+	f.ServeHTTP(spy, req)
+	return spy.code, nil
 }
 
 type c01Env struct {
@@ -216,7 +241,14 @@ func c01Configs(r *core.Run, cat []catRoute, k int, paths []string, label string
 				}
 				l.Class(class)
 				if bad != "" {
-					l.Violate("tree/"+key, bad+fmt.Sprintf(" [routes %q, path %q]", c01Texts(rs), p), c01Case{Routes: c01Texts(rs), Path: p})
+					cs := c01Case{Routes: c01Texts(rs), Path: p}
+					if t2, trie2, _, ok2 := c01Build(rs); ok2 {
+						if b2, _, _, _ := c01Eval(env, t2, trie2, p); b2 == "" {
+							cs.History = append([]string{}, paths[:pi]...)
+							key += "/after-earlier-requests"
+						}
+					}
+					l.Violate("tree/"+key, bad+fmt.Sprintf(" [routes %q, path %q, %d earlier requests on the tree]", c01Texts(rs), p, len(cs.History)), cs)
 				} else if nt && (c+pi)%99991 == 0 {
 					l.Sample(map[string]interface{}{"level": label, "routes": c01Texts(rs), "path": p, "outcome": class})
 				}
@@ -338,6 +370,7 @@ func c01FlamePhase(r *core.Run, cat []catRoute, paths []string) {
 					continue
 				}
 				l.States++
+				var served []c01Req
 				for _, rm := range reqMethods {
 					for pi := 0; pi < 2*len(paths); pi++ {
 						p, spelled := paths[pi/2], pi%2 == 1
@@ -360,6 +393,17 @@ func c01FlamePhase(r *core.Run, cat []catRoute, paths []string) {
 							return nil
 						}()
 						cs := c01Case{Routes: c01Texts(rs), Method: ms, Req: rm, Path: p, Spelled: spelled}
+						served = append(served, c01Req{rm, p, spelled})
+						alone := func() {
+							// does a fresh instance show it for this request alone? otherwise the artefact carries the history
+							if f2, hit2, ok2 := c01FlameBuild(rs, ms); ok2 {
+								*hit2 = -1
+								c01ServeReq(f2, c01Req{rm, p, spelled})
+								if *hit2 != *hit {
+									cs.Served = append([]c01Req{}, served[:len(served)-1]...)
+								}
+							}
+						}
 						if pan != nil {
 							l.Violate("flame/panic", fmt.Sprintf("ServeHTTP panicked: %v", pan), cs)
 							continue
@@ -383,6 +427,7 @@ func c01FlamePhase(r *core.Run, cat []catRoute, paths []string) {
 							l.NonTrivial++
 						}
 						if *hit != want {
+							alone()
 							l.Violate(fmt.Sprintf("flame/wrong-dispatch/want=%v/got=%v", want >= 0, *hit >= 0),
 								fmt.Sprintf("request %s %q ran handler of route #%d, documented priority per method picks #%d (-1 = not found) [routes %q methods %v]", rm, p, *hit, want, c01Texts(rs), ms), cs)
 							l.Class("mismatch")
@@ -493,6 +538,9 @@ func c01Replay(raw json.RawMessage) (bool, string) {
 		if !usable || len(reg) == 0 {
 			return false, "configuration not registrable as recorded"
 		}
+		for _, h := range c.History {
+			safeMatch(tree, h, nil)
+		}
 		badDesc, _, _, _ := c01Eval(env, tree, trie, c.Path)
 		return badDesc != "", badDesc
 	}
@@ -504,6 +552,10 @@ func c01Replay(raw json.RawMessage) (bool, string) {
 	if !ok {
 		return false, "registration panicked"
 	}
+	for _, q := range c.Served {
+		c01ServeReq(f, q)
+	}
+	*hit = -1
 	spy := &c01Spy{hdr: http.Header{}}
 	pan := func() (pv interface{}) {
 		defer func() { pv = recover() }()
